@@ -831,7 +831,7 @@ contract(
 )
 
 _NO_CFF = "'CFF ' not in {o} and ('CFF2' not in {o} or not {o}.isLoaded('CFF2'))"
-_EXTRA_SUB = "all(g in elems({o}.glyphOrder) and g not in standardGlyphOrder for g in {o}['post'].extraNames)"
+_EXTRA_SUB = "all(any({o}.glyphOrder[k] == g for k in range(len({o}.glyphOrder))) and g not in standardGlyphOrder for g in {o}['post'].extraNames)"
 _EXTRA_SUP = "all(implies(g not in standardGlyphOrder, g in elems({o}['post'].extraNames)) for g in {o}.glyphOrder)"
 _POST_FIELDS = ["PPPost.formatType", "PPPost.extraNames", "PPPost.mapping", "PPPost.glyphOrder", "PPPost.has_extraNames", "PPPost.has_mapping"]
 
